@@ -122,3 +122,17 @@ Print Assumptions qrw_no_lost_wake.
 Theorem qrw_no_stuck : forall s, qreach s -> ls s = 0 -> qquiescent s -> qu s = [] /\ qs s = [].
 Proof. exact qrw_no_stuck_thm. Qed.
 Print Assumptions qrw_no_stuck.
+
+(* admission: try_wake() (it runs under `spin`, nobody can enqueue meanwhile) run to completion: a waiting
+   writer => exactly the head writer is notified; no writer waiting => every waiting reader is notified *)
+Theorem qrw_admission : forall s t,
+  qp (qthr s t) = QWakeU -> ~ In t (qu s) -> ~ In t (qs s) -> NoDup (qs s) ->
+  exists n s', q_run_thread n s t = Some s' /\ ls s' = ls s /\ spin s' = None /\ qp (qthr s' t) = QIdle /\
+    match qu s with
+    | h :: r => qu s' = r /\ qs s' = qs s /\ qwake (qthr s' h) = Some WNotify /\
+                (forall x, x <> h -> x <> t -> qthr s' x = qthr s x)
+    | [] => qu s' = [] /\ qs s' = [] /\ (forall x, In x (qs s) -> qwake (qthr s' x) = Some WNotify) /\
+            (forall x, ~ In x (qs s) -> x <> t -> qthr s' x = qthr s x)
+    end.
+Proof. exact qrw_try_wake_thm. Qed.
+Print Assumptions qrw_admission.
